@@ -23,6 +23,47 @@ The order of the steps of the public `wait` is the order in the C++ text:
 `sl.acq` (internal lock) → `ul.rel` (user lock released *under* the internal lock) →
 `cv.enq` → `sl.rel` → `ag.suspend` … `ag.woke` → `sl.acq` → `cv.woke` (+ erase of a still
 linked entry) → `sl.rel` → `ul.acq`.
+
+## Stop-token wait (follow-up C07s)
+
+`condition_variable_any::wait(lock, stop_token, pred)` (operation `swait false`),
+`wait_until/wait_for(lock, stop_token, t, pred)` (operation `swait true`: the same text with
+`cond_.wait_until`, plus `should_stop = timeout || stop_requested()` (S2, event `cva.stop2`)
+computed under the internal lock after the wait and `if (should_stop) return pred()`) and
+`stop_source::request_stop()` (operation `stop`) on one shared stop state:
+
+```
+S0:  if (stoken.stop_requested()) return pred();                       cva.stop0 v
+     stop_callback cb(stoken, [&]{ lock mtx_; cond_.notify_all(); });  stop.acq(2) stop.push | (stop seen) callback inline, stop.infin
+     while (!pred()) {                                                 pred v
+       unique_lock l(data->mtx_);                                      sl.acq
+S1:    if (stoken.stop_requested()) return false;                      cva.stop1 v   (sl.rel on the way out)
+       unlock user lock; cond_.wait(l); relock                         ul.rel cv.enq sl.rel ag.suspend … ul.acq
+     }
+     return true;        ~stop_callback: remove_callback               stop.acq(0) stop.unlink r [stop.self stop.waited]
+```
+
+The stop state is *not* modelled here in detail — that is C14's subject (`Model/Stop.lean`).
+This model talks to it through a small interface, the events that change the abstract state
+`stopReq` (the stop-requested bit), `sLock` (holder of the lock bit), `cbs` (`callbacks_`,
+head first; a callback is identified by the waiting thread that owns it), `cur` (the
+callback `request_stop` has dequeued and not yet marked finished), `cbFin`
+(`callback_finished_executing_`) and `kept` (`stop_callback::state_` is non-null, i.e.
+`add_callback` returned true):
+
+| event here | C14 event (`Stop.Ev`) | hook line |
+|---|---|---|
+| `stAcq t 1` | `acq` of kind `rs` (sets the stop bit and the lock bit in one CAS) | `stop.acq _ 1` |
+| `stAcq t 2` / `stAcq t 0` | `acq` of kind `reg` / `unreg`, `relock` | `stop.acq _ 2` / `_ 0` |
+| `stSeen t` | `load`/`casFail`/`reload` of kind `reg` that observes the stop bit | `stop.load/casfail/reload w 2` |
+| `stPush`, `stDeq`, `stFin`, `stInFin`, `stUnlink`, `stSelf`, `stWaited`, `stRsDone` | `push`, `deq`, `finStore`, `inFin`, `unlink`, `selfChk`, `waited`, `rsDone` | `stop.push` … |
+
+The lock loops of `stop_state` (`stop.load`, `stop.cas`, `stop.casfail`, `stop.reload`) are
+stutter for this model, except that a registration that *observes* the stop bit runs the
+callback on the registering thread.  As in C14's model the `unlock()` (no hook, no
+preemption point) is merged into the event before it (`push`, `deq`, `unlink`, `rsDone`).
+The callback is a `notify_all` (pcs `cWant/cLocked/cAll/cRet k`; `k = true`: run by the
+waiter itself from the `stop_callback` constructor).
 -/
 namespace PikaVerif.CV
 
@@ -33,18 +74,27 @@ inductive Op where
   | set (v : Bool)               -- flag = v (caller holds the user lock)
   | notify (all : Bool)          -- cv.notify_one() / cv.notify_all()
   | wait (tm pr : Bool)          -- cv.wait / wait_for, without / with predicate
+  | swait (tm : Bool)            -- cv.wait(lock, stop_token, pred) / cv.wait_for(lock, stop_token, d, pred)
+  | stop                         -- stop_source.request_stop()
   deriving DecidableEq, Repr
 
 def isTimed : Op → Bool
   | .wait tm _ => tm
+  | .swait tm => tm
   | _ => false
 
 def isPred : Op → Bool
   | .wait _ pr => pr
+  | .swait _ => true
   | _ => false
 
 def isWait : Op → Bool
   | .wait _ _ => true
+  | .swait _ => true
+  | _ => false
+
+def isStop : Op → Bool
+  | .swait _ => true
   | _ => false
 
 def b2n (b : Bool) : Nat := if b then 1 else 0
@@ -68,6 +118,7 @@ inductive Pc where
   | wokeNL (tm p : Bool)         -- woke up, internal lock not yet re-taken
   | relk (tm p : Bool)           -- internal lock re-taken, before the ctx_ test (cv.woke)
   | post (still : Bool)          -- after cv.woke (+ erase if still linked), internal lock held
+  | postS (still : Bool)         -- timed stop-token wait: `should_stop` computed (S2), internal lock held
   | relockU (still : Bool)       -- internal lock released, user lock not yet re-taken
   | retn (r : Nat)               -- wait about to return r (user lock held)
   | nWant                        -- notify invoked, internal lock not yet taken
@@ -75,6 +126,25 @@ inductive Pc where
   | nAll                         -- notify_all: queue swapped out, popping entries
   | nDone                        -- notify_one: done, internal lock held
   | nRet                         -- notify: internal lock released
+  -- stop-token wait (operation `swait`)
+  | sChk0                        -- before the first `stoken.stop_requested()` (S0)
+  | sReg                         -- constructing the stop_callback: inside add_callback, stop lock not taken
+  | sRegLk                       -- add_callback holds the stop-state lock, before the push
+  | cWant (k : Bool)             -- the stop callback was called (k: inline from the constructor); before `mtx_.lock()`
+  | cLocked (k : Bool)           -- callback: internal lock held, before notify_all's swap
+  | cAll (k : Bool)              -- callback: notify_all popping entries
+  | cRet (k : Bool)              -- callback: internal lock released, before the finished store
+  | sChk1                        -- loop body: internal lock held, before `stoken.stop_requested()` (S1)
+  | sStopped                     -- S1 read true: `return false`, internal lock still held
+  | sDtor (r : Nat)              -- result r computed; `~stop_callback` of a registered callback, stop lock not taken
+  | sRm (r : Nat)                -- remove_callback holds the stop-state lock
+  | sRmChk (r : Nat)             -- not in the list any more; before the signalling-thread comparison
+  | sRmWait (r : Nat)            -- waiting for `callback_finished_executing_`
+  -- request_stop (operation `stop`)
+  | rsWant                       -- inside lock_and_request_stop
+  | rsLocked                     -- stop bit set by this thread, stop lock held: head of the callback loop
+  | rsRelock                     -- callback finished, re-taking the stop lock
+  | rsRet (b : Bool)             -- about to return b
   | fin
   deriving DecidableEq, Repr
 
@@ -98,6 +168,20 @@ inductive Ev where
   | sleep (t : Nat)
   | timeout (t : Nat)
   | done (t : Nat)
+  -- stop-token interface (see the table in the header)
+  | stop0 (t : Nat) (v : Bool)
+  | stop1 (t : Nat) (v : Bool)
+  | stop2 (t : Nat) (ss : Bool)
+  | stSeen (t : Nat)
+  | stAcq (t : Nat) (mode : Nat)
+  | stPush (t : Nat) (hadNext : Bool)
+  | stDeq (t : Nat) (c : Nat) (more : Bool)
+  | stFin (t : Nat) (c : Nat) (removed : Bool)
+  | stInFin (t : Nat)
+  | stUnlink (t : Nat) (r : Bool)
+  | stSelf (t : Nat) (eq : Bool)
+  | stWaited (t : Nat)
+  | stRsDone (t : Nat)
   deriving Repr
 
 structure St where
@@ -120,11 +204,33 @@ structure St where
   pops : Nat → Nat
   /-- history: some timed wait has been enqueued -/
   everTimed : Bool
+  /-- abstract stop state (interface to C14): stop-requested bit, holder of the lock bit,
+      `callbacks_` (head first; callback = owning thread), the callback dequeued by
+      `request_stop` and not yet marked finished, `callback_finished_executing_`,
+      `stop_callback::state_ != nullptr` of the thread's current callback object -/
+  stopReq : Bool
+  sLock : Option Nat
+  cbs : List Nat
+  cur : Option Nat
+  cbFin : Nat → Bool
+  kept : Nat → Bool
+  /-- the local `should_stop` of `wait_until(lock, stop_token, …)` -/
+  sstop : Nat → Bool
+  /-- history: the thread whose `request_stop` won; that call has finished its callback loop -/
+  reqT : Nat
+  stopDone : Bool
 
 def init (n : Nat) (flag : Bool) : St :=
   { n := n, lock := none, ulock := none, queue := [], tok := fun _ => 0, pc := fun _ => .idle,
     flag := flag, curOp := fun _ => .lock, waiting := fun _ => false, poppedOp := fun _ => false,
-    enqs := fun _ => 0, pops := fun _ => 0, everTimed := false }
+    enqs := fun _ => 0, pops := fun _ => 0, everTimed := false,
+    stopReq := false, sLock := none, cbs := [], cur := none, cbFin := fun _ => false,
+    kept := fun _ => false, sstop := fun _ => false, reqT := 0, stopDone := false }
+
+/-- Where a wait form goes once its result `r` is known: a stop-token wait whose callback is
+    registered runs `~stop_callback` first. -/
+def exitPc (s : St) (t : Nat) (r : Nat) : Pc :=
+  if isStop (s.curOp t) = true ∧ s.kept t = true then .sDtor r else .retn r
 
 /-- Mark a waiter as popped from the cv queue (its `ctx_` was reset by the notifier). -/
 def setPopped : Pc → Option Pc
@@ -176,6 +282,12 @@ def step (s : St) : Ev → Option St
           some { s with pc := upd s.pc t (if pr then .predChk false else .want),
                         curOp := upd s.curOp t o, poppedOp := upd s.poppedOp t false }
         else none
+      | .swait _ =>
+        if s.ulock = some t then
+          some { s with pc := upd s.pc t .sChk0, curOp := upd s.curOp t o,
+                        poppedOp := upd s.poppedOp t false, kept := upd s.kept t false }
+        else none
+      | .stop => some { s with pc := upd s.pc t .rsWant, curOp := upd s.curOp t o }
     else none
   | .ulAcq t =>
     if t < s.n ∧ s.ulock = none then
@@ -185,7 +297,8 @@ def step (s : St) : Ev → Option St
         -- public wait returns: plain forms report the status, predicate forms re-test
         some { s with ulock := some t,
                       pc := upd s.pc t (if isPred (s.curOp t)
-                                         then .predChk (isTimed (s.curOp t) && still)
+                                         then .predChk (if isStop (s.curOp t) && isTimed (s.curOp t) then s.sstop t
+                                                        else isTimed (s.curOp t) && still)
                                          else .retn (b2n (isTimed (s.curOp t) && still))) }
       | _ => none
     else none
@@ -207,14 +320,15 @@ def step (s : St) : Ev → Option St
     if t < s.n ∧ v = s.flag then
       match s.pc t with
       | .predChk final =>
-        some { s with pc := upd s.pc t (if final then .retn (b2n v) else if v then .retn 1 else .want) }
+        some { s with pc := upd s.pc t (if final then exitPc s t (b2n v) else if v then exitPc s t 1 else .want) }
       | _ => none
     else none
   | .slAcq t =>
     if t < s.n ∧ s.lock = none then
       match s.pc t with
-      | .want => some { s with lock := some t, pc := upd s.pc t .locked,
+      | .want => some { s with lock := some t, pc := upd s.pc t (if isStop (s.curOp t) then .sChk1 else .locked),
                                poppedOp := upd s.poppedOp t false }
+      | .cWant k => some { s with lock := some t, pc := upd s.pc t (.cLocked k) }
       | .wokeNL tm p => some { s with lock := some t, pc := upd s.pc t (.relk tm p) }
       | .nWant => some { s with lock := some t, pc := upd s.pc t .nLocked }
       | _ => none
@@ -223,9 +337,15 @@ def step (s : St) : Ev → Option St
     if t < s.n ∧ s.lock = some t then
       match s.pc t with
       | .enq tm => some { s with lock := none, pc := upd s.pc t (.unl tm false) }
-      | .post still => some { s with lock := none, pc := upd s.pc t (.relockU still) }
+      | .post still =>
+        -- the timed stop-token wait computes `should_stop` (S2) before it leaves the block
+        if isStop (s.curOp t) && isTimed (s.curOp t) then none
+        else some { s with lock := none, pc := upd s.pc t (.relockU still) }
+      | .postS still => some { s with lock := none, pc := upd s.pc t (.relockU still) }
       | .nDone => some { s with lock := none, pc := upd s.pc t .nRet }
       | .nAll => if s.queue = [] then some { s with lock := none, pc := upd s.pc t .nRet } else none
+      | .cAll k => if s.queue = [] then some { s with lock := none, pc := upd s.pc t (.cRet k) } else none
+      | .sStopped => some { s with lock := none, pc := upd s.pc t (exitPc s t 0) }
       | _ => none
     else none
   | .cvEnq t size tm =>
@@ -249,15 +369,17 @@ def step (s : St) : Ev → Option St
       | _ => none
     else none
   | .cvAll t size =>
-    if t < s.n ∧ s.lock = some t ∧ size = s.queue.length ∧ s.curOp t = .notify true then
+    if t < s.n ∧ s.lock = some t ∧ size = s.queue.length then
       match s.pc t with
-      | .nLocked => some { s with pc := upd s.pc t .nAll }
+      | .nLocked => if s.curOp t = .notify true then some { s with pc := upd s.pc t .nAll } else none
+      | .cLocked k => some { s with pc := upd s.pc t (.cAll k) }
       | _ => none
     else none
   | .popAll t size tgt dropped =>
     if t < s.n ∧ s.lock = some t then
       match s.pc t with
       | .nAll => popCore s t size tgt dropped .nAll
+      | .cAll k => popCore s t size tgt dropped (.cAll k)
       | _ => none
     else none
   | .suspend t =>
@@ -303,9 +425,116 @@ def step (s : St) : Ev → Option St
       match s.pc t with
       | .retn b => if b = r then some { s with pc := upd s.pc t .idle } else none
       | .nRet => if r = 0 then some { s with pc := upd s.pc t .idle } else none
+      | .rsRet b => if r = b2n b then some { s with pc := upd s.pc t .idle } else none
+      -- lock_and_request_stop observed the stop bit: request_stop returns false
+      | .rsWant => if r = 0 ∧ s.stopReq = true then some { s with pc := upd s.pc t .idle } else none
       | _ => none
     else none
   | .done t =>
     if t < s.n ∧ s.pc t = .idle then some { s with pc := upd s.pc t .fin } else none
+  | .stop0 t v =>
+    if t < s.n ∧ v = s.stopReq then
+      match s.pc t with
+      | .sChk0 => some { s with pc := upd s.pc t (if v then .predChk true else .sReg) }
+      | _ => none
+    else none
+  | .stop1 t v =>
+    if t < s.n ∧ s.lock = some t ∧ v = s.stopReq then
+      match s.pc t with
+      | .sChk1 => some { s with pc := upd s.pc t (if v then .sStopped else .locked) }
+      | _ => none
+    else none
+  | .stop2 t ss =>
+    -- should_stop = (reason == timeout) || stoken.stop_requested(), under the internal lock
+    if t < s.n ∧ s.lock = some t ∧ s.curOp t = .swait true then
+      match s.pc t with
+      | .post still =>
+        if ss = (still || s.stopReq) then
+          some { s with sstop := upd s.sstop t ss, pc := upd s.pc t (.postS still) }
+        else none
+      | _ => none
+    else none
+  | .stSeen t =>
+    -- lock_if_not_stopped observed the stop bit: the callback runs on this thread
+    if t < s.n ∧ s.stopReq = true then
+      match s.pc t with
+      | .sReg => some { s with pc := upd s.pc t (.cWant true) }
+      | _ => none
+    else none
+  | .stAcq t mode =>
+    if t < s.n ∧ s.sLock = none then
+      match s.pc t with
+      | .sReg =>
+        if mode = 2 ∧ s.stopReq = false then some { s with sLock := some t, pc := upd s.pc t .sRegLk }
+        else none
+      | .rsWant =>
+        if mode = 1 ∧ s.stopReq = false then
+          some { s with sLock := some t, stopReq := true, reqT := t, pc := upd s.pc t .rsLocked }
+        else none
+      | .rsRelock => if mode = 0 then some { s with sLock := some t, pc := upd s.pc t .rsLocked } else none
+      | .sDtor r => if mode = 0 then some { s with sLock := some t, pc := upd s.pc t (.sRm r) } else none
+      | _ => none
+    else none
+  | .stPush t hadNext =>
+    if t < s.n ∧ s.sLock = some t ∧ hadNext = decide (s.cbs ≠ []) then
+      match s.pc t with
+      | .sRegLk =>
+        some { s with cbs := t :: s.cbs, sLock := none, kept := upd s.kept t true,
+                      cbFin := upd s.cbFin t false, pc := upd s.pc t (.predChk false) }
+      | _ => none
+    else none
+  | .stDeq t c more =>
+    if t < s.n ∧ s.sLock = some t then
+      match s.pc t with
+      | .rsLocked =>
+        match s.cbs with
+        | h :: rest =>
+          if h = c ∧ more = decide (rest ≠ []) then
+            some { s with cbs := rest, sLock := none, cur := some c, pc := upd s.pc t (.cWant false) }
+          else none
+        | [] => none
+      | _ => none
+    else none
+  | .stFin t c removed =>
+    if t < s.n ∧ s.cur = some c ∧ removed = false then
+      match s.pc t with
+      | .cRet false => some { s with cbFin := upd s.cbFin c true, cur := none, pc := upd s.pc t .rsRelock }
+      | _ => none
+    else none
+  | .stInFin t =>
+    if t < s.n then
+      match s.pc t with
+      | .cRet true => some { s with cbFin := upd s.cbFin t true, pc := upd s.pc t (.predChk false) }
+      | _ => none
+    else none
+  | .stUnlink t r =>
+    if t < s.n ∧ s.sLock = some t ∧ r = decide (t ∈ s.cbs) then
+      match s.pc t with
+      | .sRm res =>
+        if r then some { s with cbs := s.cbs.erase t, sLock := none, kept := upd s.kept t false,
+                                pc := upd s.pc t (.retn res) }
+        else some { s with sLock := none, pc := upd s.pc t (.sRmChk res) }
+      | _ => none
+    else none
+  | .stSelf t eq =>
+    -- the waiter is never the signalling thread (it is inside its wait): only `false` is
+    -- produced by the code as modelled
+    if t < s.n ∧ eq = false then
+      match s.pc t with
+      | .sRmChk res => some { s with pc := upd s.pc t (.sRmWait res) }
+      | _ => none
+    else none
+  | .stWaited t =>
+    if t < s.n ∧ s.cbFin t = true then
+      match s.pc t with
+      | .sRmWait res => some { s with kept := upd s.kept t false, pc := upd s.pc t (.retn res) }
+      | _ => none
+    else none
+  | .stRsDone t =>
+    if t < s.n ∧ s.sLock = some t ∧ s.cbs = [] then
+      match s.pc t with
+      | .rsLocked => some { s with sLock := none, stopDone := true, pc := upd s.pc t (.rsRet true) }
+      | _ => none
+    else none
 
 end PikaVerif.CV
